@@ -240,6 +240,25 @@ def gen_cases(tier, seed):
     # a UDP association's target (IPv4 and IPv6) end to end: the datagrams arrive at the requested address
     add("udpe2e", [4, 5, 300], "udp-target-e2e", True, model=False)
     add("udpe2e", [6, 5, 300], "udp-target-e2e", True, model=False)
+    # ------------------------------------------------------------ the HTTP front-end's target extraction (package http, C17):
+    # "the host and port a local application asks for through the HTTP proxy are the host and port the server dials".
+    # The request generators and the reference of C17 are reused; C07 judges only the tunnel target.
+    try:
+        from . import c17 as _c17
+        per = {}
+        for c in _c17.gen_cases(tier, seed):
+            if c.drv not in ("http_fwd", "http_dt") or "malformed" in c.kind or "non-ascii" in c.kind or "64k" in c.kind:
+                continue
+            if per.get(c.kind, 0) >= (60 if quick else 600):
+                continue
+            per[c.kind] = per.get(c.kind, 0) + 1
+            c.meta = dict(c.meta or {}, borrowed="c17")
+            c.cid = "c17_" + c.cid
+            c.kind = "c17:" + c.kind
+            cs.append(c)
+    except Exception as e:       # a generator that cannot run must not hide the rest
+        cs.append(Case("borrow_err_c17", "destenc", [hx(b"1.2.3.4"), 80, "4"], "borrow-error", False, {"error": repr(e)}))
+
     return cs
 
 
@@ -274,6 +293,13 @@ def parse_ok(tokens):
 
 
 def oracle(c, ir):
+    if (c.meta or {}).get("borrowed") == "c17":
+        from . import c17 as _c17
+        f = _c17.oracle(c, ir)
+        # only what concerns the destination: the tunnel target (host, port, CONNECT or not) and crashes
+        if f and (f.startswith("tunnel target is") or "panic" in f.lower() or f.startswith("well-formed request") or f.startswith("is_connect")):
+            return "HTTP proxy: " + f
+        return None
     t = ir.split()
     if c.drv == "destenc":
         host, port, cls = unhx(c.args[0]), int(c.args[1]), c.args[2]
@@ -370,6 +396,9 @@ def oracle(c, ir):
 def same(c, ir, mr):
     if ir == mr:
         return True
+    if (c.meta or {}).get("borrowed") == "c17":
+        from . import c17 as _c17
+        return _c17.same(c, ir, mr)
     ti, tm = ir.split(), mr.split()
     if c.drv == "destdec" and ti and tm and ti[0] == "OK" and tm[0] == "OK" and len(ti) == len(tm) == 4:
         return ti[2:] == tm[2:] and canon_dest_pair(tm[1], ti[1])
